@@ -54,7 +54,7 @@ def generate(rng, tier, idx):
             'chunks': rng.choice([None, None, None, 'mixed', 'tiny', 4096]), 'mount': mount,
             'tree': g['tree'], 'manifests': g['manifests'], 'muts': muts,
             'ops': [{'op': 'verify', 'sub': sub, 'last_mtime': lm,
-                     'policy': rng.choice(['false', 'false', 'true', 'none', 'mixed', 'mixed']),
+                     'policy': rng.choice(['false', 'false', 'true', 'none', 'mixed', 'mixed']), 'slash': rng.random() < 0.3,
                      'api': 'both' if rng.random() < 0.6 else 'lib'}]}
 
 
@@ -111,7 +111,8 @@ def execute(sc):
 
                 def lib():
                     m = ManifestRecursiveLoader(top_path, **xkw)
-                    return m.assert_directory_verifies(sub, fail_handler=handler, last_mtime=lm_abs)
+                    # (the same directory spelled with a trailing slash, as shell completion leaves it)
+                    return m.assert_directory_verifies(sub + '/' if (sub and op.get('slash')) else sub, fail_handler=handler, last_mtime=lm_abs)
                 r = call(lib)
                 cli = None
                 real_sub = os.path.realpath(os.path.join(w.root, sub)) == os.path.normpath(os.path.join(w.root, sub))
